@@ -167,7 +167,8 @@ func AttrGroupID(id int64) string {
 //	http://www.llvm.org/docs/LangRef.html#identifiers
 func ComdatName(name string) string {
 	// Numeric comdat names are quoted; `$42` is not a valid comdat name token.
-	if allDigits(name) {
+	// The empty name is quoted too; `$` is not a token.
+	if len(name) == 0 || allDigits(name) {
 		return `$"` + name + `"`
 	}
 	return "$" + EscapeIdent(name)
